@@ -325,6 +325,10 @@ def h_flow(t, part):
             if len(w.eio.connects) != first_attempts:
                 return Fail('reconnect:attempt-without-cause', repr(w.eio.connects))
             return None
+        # while the client waits to reconnect it is not connected to anything
+        if w.c.connected or dict(w.c.namespaces):
+            return Fail('reconnect:stale-state-during-back-off', 'after the loss: connected=%r namespaces=%r' % (
+                w.c.connected, dict(w.c.namespaces)))
         # ---- run the reconnection effort -------------------------------------------------------------------------
         if asyncio_:
             # abort / timeouts of the back-off wait: FIFO order means the wait times out (nobody sets the event)
